@@ -39,6 +39,8 @@ EvScenario ==
   /\ UNCHANGED <<viol, drift>>
 
 TimesOf(x) == [s \in DOMAIN x.times |-> x.times[s]]
+(* args are logged as a sequence of <<key, value>> pairs                      *)
+ArgsOf(a) == {<<a[i][1], a[i][2]>> : i \in 1..Len(a)}
 
 EvSub ==
   /\ Line.ev = "sub"
@@ -56,6 +58,10 @@ EvSub ==
             [] x.kind = "whenquery" ->
                  SubWhenQuery([kind |-> x.q.kind, state |-> x.q.state, n |-> x.q.n], x.ctx)
             [] x.kind = "whenqueue" -> SubWhenQueue(x.tick)
+            [] x.kind = "whenargs" -> SubWhenArgs(x.state, ArgsOf(x.args), x.ctx)
+            [] x.kind = "whenqueueends" -> SubWhenQueueEnds
+            [] x.kind = "whenticks" -> SubWhenTicks(x.state, x.delta, x.ctx)
+            [] x.kind = "whennextactive" -> SubWhenNextActive(x.state, x.ctx)
        /\ LET nb == binds'[Len(binds')]
               nbClosed == IF nb.alias = 0 THEN nb.closed ELSE binds[nb.alias].closed
               ctxDead == nb.ctx # 0 /\ nb.ctx \in dead
@@ -80,6 +86,7 @@ EvCancel ==
   /\ UNCHANGED <<viol, drift, nsc>>
 
 TxOf(x) == [accepted |-> x.accepted, check |-> x.check, ticked |-> x.ticked,
+            args |-> ArgsOf(x.args),
             activated |-> SetOf(x.activated), deactivated |-> SetOf(x.deactivated),
             newActive |-> SetOf(x.newActive) \cap States,
             newClock |-> [s \in States |-> x.newClock[s]]]
